@@ -255,6 +255,12 @@ func visitInstr(fr *frame, instr ssa.Instruction) continuation {
 		chanSend(fr.i, fr.get(instr.Chan), fr.get(instr.X))
 
 	case *ssa.Store:
+		if sp, ok := fr.get(instr.Addr).(symElemPtr); ok {
+			// store through a symbolic index: case-split it
+			k := fr.i.x.needIndex(sp.idx, len(sp.base))
+			sp.base[k] = fr.get(instr.Val)
+			break
+		}
 		addr := fr.get(instr.Addr).(*value)
 		if addr == nil {
 			panic(runtimeError("invalid memory address or nil pointer dereference"))
